@@ -19,7 +19,7 @@ import logging
 from common import Ctx, Failure, cjson, clist, copt, cpair, cstr, cnat, corpus_cases
 
 COQ_TARGETS = ["props/P_C12.vo", "corr/Corr_C12.vo"]
-PROOF_FILES = ["proofs/Overlay_proofs.v"]
+PROOF_FILES = ["proofs/Overlay_proofs.v", "proofs/CrossModel_proofs.v"]
 RULE = ("(base, overlay document, inputs) triples: overlay documents are generated RELATIVE to the base so that "
         "every key-overlap pattern occurs (new key, same key scalar/list/empty-map/computed-map over map, map over "
         "scalar/list/null, map over map to depth 5, keys with dots); all ordered overlay tree shapes up to a node bound "
